@@ -19,13 +19,37 @@ ASSUMPTIONS = ['PyWavelets waverec/waverec2 is the reference, including its rule
                'trailing lowpass sample when the lowpass is one longer than the detail band',
                'tolerance 1e-9*max(1,gain*max|c|) float64, 64*eps32*gain*max|c| float32']
 STRATA = {'thorough': 'every (wavelet, mode, dim) combination: 106 x 5 x 2', 'quick': ''}
-LABEL_FLOORS = {'odd': 0.25, 'J>=2': 0.3, 'some_None': 0.25}
+LABEL_FLOORS = {'odd': 0.25, 'J>=2': 0.3, 'some_None': 0.25, 'None_at_odd_level_with_finer_present': 0.02}
 plan = c01.plan
 
 
 @st.composite
 def _case(draw, unit):
-    case = draw(c01.strategy(unit))
+    case = draw(c01._case(unit))
+    L = dwtu.flen(case['wave'])
+    if draw(st.integers(0, 7)) == 0 and 4 <= L <= (20 if case['dim'] == 1 else 8):
+        # constructed: a level given as None whose (periodization) length is odd while a finer level is present -
+        # the inverse has to infer that level's size and to drop one sample; far too rare to wait for
+        J = draw(st.sampled_from([3, 3, 4]))
+        t = draw(st.integers(1, J - 2))
+        need = dwtu.even_up(L) * 2 ** (J - 1)
+
+        def one_size():
+            n = (2 * draw(st.integers(0, 6)) + 1) * 2 ** t
+            while n < need:
+                n += 2 ** (t + 1)
+            return n
+        mode = unit.get('mode') or draw(st.sampled_from(['periodization', 'periodization', 'zero', 'symmetric', 'periodic']))
+        mask = [0] * J
+        mask[t] = 1
+        for j in range(t + 1, J):
+            mask[j] = draw(st.integers(0, 1))
+        case.update({'J': J, 'size': [one_size() for _ in range(case['dim'])], 'mode': mode,
+                     'mode_spelling': 'per' if (mode == 'periodization' and draw(st.booleans())) else mode,
+                     'wave_row': None, 'none_mask': mask})
+        case['zero_mask'] = [int(draw(st.integers(0, 4)) == 0) for _ in range(J)]
+        case['rp'] = draw(core.recipe_strategy())
+        return case
     J = case['J']
     kind = draw(st.sampled_from(['none', 'none', 'one', 'rand', 'all']))
     if kind == 'none':
@@ -100,6 +124,8 @@ def run_case(case):
             'all_None' if all(mask) else None,
             'None_with_finer_present' if any(
                 mask[t] and not all(mask[:t]) for t in range(1, J)) else None,
+            'None_at_odd_level_with_finer_present' if any(
+                mask[t] and not all(mask[:t]) and ns[t] % 2 for ns, _ in per_axis for t in range(1, J)) else None,
             'in_D1s_predicate' if in_d1s else None,
             'ambiguous_None(periodization)' if amb else None)
     r.nontrivial = J >= 2 or any(n % 2 for n in size) or any(mask)
